@@ -260,14 +260,6 @@ func (c *checker) literalStream(r *rng.R, n int) {
 				if got == "ok "+hx(string(s)) {
 					continue
 				}
-				other := "\\'"
-				if qq == '\'' {
-					other = "\\\""
-				}
-				if !safe && strings.Contains(string(s), other) {
-					c.knownFinding("D16", fmt.Sprintf("unq of %q → %s", text, got))
-					continue
-				}
 				uop := map[byte]string{'"': "unq2", '\'': "unq1"}[qq]
 				c.oracle("C11 unquote(quote s) ≠ s", uop+" "+hx(string(text)), got, "want ok "+hx(string(s)))
 			}
